@@ -24,6 +24,7 @@ type Plan struct {
 	MaxRej    int    `json:"maxRej"`    // sends that shuttermint refuses (double sends) per run
 	Windows   bool   `json:"windows"`   // canonical timing classes (in phase / first block after)
 	AccuseAny bool   `json:"accuseAny"` // Byzantine accusations/apologies may name Byzantine keypers too
+	MaxReload int    `json:"maxReload"` // honest keypers that re-create their in-memory state once during the run
 	Simulate  int    `json:"simulate"`  // >0: random behaviours instead of exhaustive search
 	MaxBeh    int    `json:"maxBeh"`    // replay at most that many behaviours (0 = all)
 }
@@ -47,9 +48,9 @@ func (p Plan) mcFiles() (string, map[string][]byte, string) {
 	mod := "MCgen_dkg_" + strings.ReplaceAll(p.Name, "-", "_")
 	body := fmt.Sprintf("---- MODULE %s ----\nEXTENDS DKGMC\ncByz == %s\n====\n", mod, setText(p.Cfg.Byz))
 	inv := "INVARIANT C07_Spec\nINVARIANT Agreement\nINVARIANT EmitFinal\n"
-	cfg := fmt.Sprintf("CONSTANTS\n N = %d\n T = %d\n Byz <- cByz\n PhaseLen = %d\n MaxRej = %d\n Emit = TRUE\n AccuseAny = %s\n Windows = %s\n Partial = %s\n"+
+	cfg := fmt.Sprintf("CONSTANTS\n N = %d\n T = %d\n Byz <- cByz\n PhaseLen = %d\n MaxRej = %d\n Emit = TRUE\n AccuseAny = %s\n Windows = %s\n Partial = %s\n MaxReload = %d\n"+
 		"SPECIFICATION Spec\n%sVIEW View\nCHECK_DEADLOCK FALSE\n",
-		p.Cfg.N, p.Cfg.T, p.Cfg.PhaseLen, p.MaxRej, boolText(p.AccuseAny), boolText(p.Windows), boolText(p.Partial), inv)
+		p.Cfg.N, p.Cfg.T, p.Cfg.PhaseLen, p.MaxRej, boolText(p.AccuseAny), boolText(p.Windows), boolText(p.Partial), p.MaxReload, inv)
 	return mod, map[string][]byte{mod + ".tla": []byte(body)}, cfg
 }
 
@@ -305,8 +306,9 @@ func pick(c *core.Ctx, g *Gen) [][]int {
 			have[fmt.Sprint(beh[i])] = true
 		}
 		// the runs to which the "all report success" clause applies are always replayed
+		step := 1 + len(g.Live)/48
 		for i, b := range g.Live {
-			if i < 16 && !have[fmt.Sprint(b)] {
+			if i%step == 0 && !have[fmt.Sprint(b)] {
 				out = append(out, b)
 			}
 		}
@@ -452,21 +454,22 @@ func valsText(v []string) string {
 func plansC07(thorough bool) []Plan {
 	if !thorough {
 		return []Plan{
-			{Name: "n3-honest", Cfg: Cfg{N: 3, T: 2, Byz: []int{}, PhaseLen: 2}, Windows: true, MaxBeh: 40},
+			{Name: "n3-honest", Cfg: Cfg{N: 3, T: 2, Byz: []int{}, PhaseLen: 2}, Windows: true, MaxReload: 1, MaxBeh: 40},
 			{Name: "n3-byz3", Cfg: Cfg{N: 3, T: 2, Byz: []int{3}, PhaseLen: 2}, Windows: true, MaxBeh: 140},
-			{Name: "n3-sim", Cfg: Cfg{N: 3, T: 2, Byz: []int{2}, PhaseLen: 3}, Partial: true, MaxRej: 2, AccuseAny: true, Simulate: 12},
-			{Name: "n4-sim", Cfg: Cfg{N: 4, T: 2, Byz: []int{2, 4}, PhaseLen: 2}, Partial: true, MaxRej: 2, AccuseAny: true, Simulate: 20},
+			{Name: "n3-sim", Cfg: Cfg{N: 3, T: 2, Byz: []int{2}, PhaseLen: 3}, Partial: true, MaxRej: 2, AccuseAny: true, MaxReload: 2, Simulate: 16},
+			{Name: "n4-sim", Cfg: Cfg{N: 4, T: 2, Byz: []int{2, 4}, PhaseLen: 2}, Partial: true, MaxRej: 2, AccuseAny: true, MaxReload: 2, Simulate: 20},
 		}
 	}
 	return []Plan{
-		{Name: "n3-honest", Cfg: Cfg{N: 3, T: 2, Byz: []int{}, PhaseLen: 3}, Windows: true, MaxBeh: 400},
+		{Name: "n3-honest", Cfg: Cfg{N: 3, T: 2, Byz: []int{}, PhaseLen: 3}, Windows: true, MaxReload: 1, MaxBeh: 600},
+		{Name: "n3-byz3-reload", Cfg: Cfg{N: 3, T: 2, Byz: []int{3}, PhaseLen: 2}, Windows: true, MaxReload: 1, MaxBeh: 2000},
 		{Name: "n3-byz3", Cfg: Cfg{N: 3, T: 2, Byz: []int{3}, PhaseLen: 2}, Windows: true, Partial: true, MaxBeh: 3000},
 		{Name: "n3-byz1-rej", Cfg: Cfg{N: 3, T: 2, Byz: []int{1}, PhaseLen: 2}, Windows: true, MaxRej: 1, MaxBeh: 1500},
 		{Name: "n3-t3", Cfg: Cfg{N: 3, T: 3, Byz: []int{}, PhaseLen: 2}, Windows: true, MaxBeh: 200},
-		{Name: "n3-sim", Cfg: Cfg{N: 3, T: 2, Byz: []int{2}, PhaseLen: 3}, Partial: true, MaxRej: 2, AccuseAny: true, Simulate: 400},
-		{Name: "n4-sim", Cfg: Cfg{N: 4, T: 2, Byz: []int{2, 4}, PhaseLen: 2}, Partial: true, MaxRej: 2, AccuseAny: true, Simulate: 400},
-		{Name: "n4-t3-sim", Cfg: Cfg{N: 4, T: 3, Byz: []int{1}, PhaseLen: 3}, Partial: true, MaxRej: 2, AccuseAny: true, Simulate: 300},
-		{Name: "n5-sim", Cfg: Cfg{N: 5, T: 3, Byz: []int{1, 4}, PhaseLen: 2}, Partial: true, MaxRej: 2, AccuseAny: true, Simulate: 300},
+		{Name: "n3-sim", Cfg: Cfg{N: 3, T: 2, Byz: []int{2}, PhaseLen: 3}, Partial: true, MaxRej: 2, AccuseAny: true, MaxReload: 2, Simulate: 400},
+		{Name: "n4-sim", Cfg: Cfg{N: 4, T: 2, Byz: []int{2, 4}, PhaseLen: 2}, Partial: true, MaxRej: 2, AccuseAny: true, MaxReload: 2, Simulate: 400},
+		{Name: "n4-t3-sim", Cfg: Cfg{N: 4, T: 3, Byz: []int{1}, PhaseLen: 3}, Partial: true, MaxRej: 2, AccuseAny: true, MaxReload: 2, Simulate: 300},
+		{Name: "n5-sim", Cfg: Cfg{N: 5, T: 3, Byz: []int{1, 4}, PhaseLen: 2}, Partial: true, MaxRej: 2, AccuseAny: true, MaxReload: 2, Simulate: 300},
 	}
 }
 
